@@ -66,9 +66,21 @@ def _recompute(env, r, tag, S, hs, dgap, free=False):
     return c
 
 
+def _reactor(env, layout):
+    """The real Reactor of an enumerated layout; an exception other than the error exit while the real Core builds its gap
+    mesh is a violation of its own (the mesh must be constructible for every arrangement)."""
+    try:
+        r = SC.build_reactor(layout)
+    except (IndexError, KeyError, ValueError, TypeError, AssertionError, AttributeError, ZeroDivisionError) as ex:
+        env.fail('the gap mesh of this layout can be built by the real Core', why=repr(ex)[:200], key='core_load_raises')
+        env.stop()
+    env.holds('the gap mesh of this layout can be built by the real Core', True)
+    return r
+
+
 def body_geometry(env):
     layout = env.params['layout']
-    r = SC.build_reactor(layout)
+    r = _reactor(env, layout)
     real = r.core
     if env.mode == 'sym':
         S = Sym(z3.Real('SQRT3'))
@@ -120,7 +132,7 @@ def body_geometry(env):
 
 def body_topology(env):
     layout = env.params['layout']
-    r = SC.build_reactor(layout)
+    r = _reactor(env, layout)
     c = r.core
     adj = c._asm_sc_adj
     n_sc = c.n_sc
